@@ -402,9 +402,15 @@ def check_collapse(prop: str, res: Result, repo: Repo, want=("R-INTERVAL", "R-CO
         if cparams:
             res.fail("R-CONSERVE", finding(prop, "R-CONSERVE", cc, fn, f"collapse_candles takes parameters {cparams}: which candles are walked must not depend on the caller (batch and incremental passes must agree)", construct=f"collapse_candles({', '.join(cparams)})"))
         touched = []
+        def _arg_txt(a):
+            # the fill step may be the method or a module-level function of the same name (the method's body moved out)
+            if isinstance(a, ast.Call) and call_name(a) == "fill_missing_candles" and (isinstance(a.func, ast.Name) or ast.unparse(a.func) == "self.fill_missing_candles"):
+                return "self.fill_missing_candles(" + ", ".join(ast.unparse(x) for x in a.args) + ")"
+            return ast.unparse(a)
+
         for n in ast.walk(fn):
             if isinstance(n, ast.Call) and isinstance(n.func, ast.Attribute) and ast.unparse(n.func.value) == "self.candles":
-                touched.append((n, f"{n.func.attr}({', '.join(ast.unparse(a) for a in n.args)})"))
+                touched.append((n, f"{n.func.attr}({', '.join(_arg_txt(a) for a in n.args)})"))
             elif isinstance(n, ast.Subscript) and ast.unparse(n.value) == "self.candles":
                 touched.append((n, "self.candles[" + ast.unparse(n.slice) + "]"))
             elif isinstance(n, (ast.Assign, ast.AugAssign)) and any(ast.unparse(t) == "self.candles" for t in (n.targets if isinstance(n, ast.Assign) else [n.target])):
@@ -428,7 +434,7 @@ def check_collapse(prop: str, res: Result, repo: Repo, want=("R-INTERVAL", "R-CO
         for p in stmt_paths(post):
             calls = [call_target(c) for c in path_calls(p)]
             if "R-CONSERVE" in want:
-                if calls and calls[-1] == "self.candles.extend" and ast.unparse(path_calls(p)[-1].args[0]) in (ACC, f"self.fill_missing_candles({ACC}, {TFN})"):
+                if calls and calls[-1] == "self.candles.extend" and ast.unparse(path_calls(p)[-1].args[0]).replace("extend(fill_missing_candles(", "extend(self.fill_missing_candles(") in (ACC, f"self.fill_missing_candles({ACC}, {TFN})", f"fill_missing_candles({ACC}, {TFN})"):
                     res.ok("R-CONSERVE", {"site": cc.where, "exit": "self.candles.extend(candles_)"})
                 else:
                     res.fail("R-CONSERVE", finding(prop, "R-CONSERVE", cc, fn, "a normal exit of collapse_candles does not put the rebuilt buckets back (self.candles.extend(candles_))", construct="collapse exit: " + " -> ".join(calls)))
@@ -438,7 +444,7 @@ def check_collapse(prop: str, res: Result, repo: Repo, want=("R-INTERVAL", "R-CO
                     res.fail("R-FILLPATH", finding(prop, "R-FILLPATH", cc, fn, "an exit path of collapse_candles does not consult self.timeframe_fill: gaps stay unfilled", construct="collapse exit: no timeframe_fill test"))
                 for item in tests:
                     if item[2]:
-                        c = [x for x in path_calls(p) if call_target(x) == "self.fill_missing_candles"]
+                        c = [x for x in path_calls(p) if call_target(x) in ("self.fill_missing_candles", "fill_missing_candles")]
                         stores = [s for s in p if isinstance(s, ast.Assign) and ast.unparse(s.targets[0]) == ACC and c and s.value is c[0]]
                         direct = c and any(call_target(x) == "self.candles.extend" and x.args and x.args[0] is c[0] for x in path_calls(p))
                         if c and (stores or direct) and [ast.unparse(a) for a in c[0].args] == [ACC, TFN]:
@@ -607,6 +613,13 @@ def _on_grid(label: Frac, S, TF) -> bool:
 def check_fill(prop: str, res: Result, repo: Repo):
     rule = "R-FILL"
     fm = repo.method("hexital.core.candle_manager", "CandleManager", "fill_missing_candles")
+    # the fill step collapse_candles actually runs: the method, or a module-level function of that name it calls directly
+    _cc = repo.method("hexital.core.candle_manager", "CandleManager", "collapse_candles")
+    for c_ in calls_in(_cc.node):
+        if isinstance(c_.func, ast.Name) and c_.func.id == "fill_missing_candles":
+            r_ = repo.resolve(_cc.module, "fill_missing_candles")
+            if isinstance(r_, FuncInfo):
+                fm = r_
     fn = fm.node
     params = [p for p in fm.params if p != "self"]
     lst, tfp = params[0], params[1]
